@@ -274,7 +274,7 @@ type sink interface {
 
 const nChildren = 16
 
-func nCases(run *ev.Run) int { return run.Pick(10000, 60000) }
+func nCases(run *ev.Run) int { return run.Pick(10000, 200000) }
 
 func TestCheck(t *testing.T) {
 	if _, ok := child.IsChild(); ok {
